@@ -77,6 +77,13 @@ CRP(p, rw) ==
 Thick(X, Y) == Dim(Y) > Dim(X) \/ (Dim(Y) = Dim(X) /\ Dim(X) # 1)
 JudgedR(p, rw, o, q) == (o = "diff" /\ rw.ma[q] /\ rw.mb[q]) => Thick(PA(p), PB(p))
 
+\* Two volumes with a common face plane only TOUCH there: the boolean mesh operation may leave a
+\* zero-thickness sliver, near which the answers of the result are arbitrary (don't-care, like every
+\* touching configuration).  Probes within half a unit of a common face plane are not judged.
+SharedPlanes(X, Y, c) == IF X.k = "vol" /\ Y.k = "vol" THEN CoordsOf(X, c) \cap CoordsOf(Y, c) ELSE {}
+Coplanar(X, Y) == \E c \in 1..3 : SharedPlanes(X, Y, c) # {}
+NearSharedPlane(X, Y, pt) == \E c \in 1..3 : \E v \in SharedPlanes(X, Y, c) : Abs(pt[c] - v) <= 4
+
 \* ---------------------------------------------------------------- as-implemented deviations
 \* Trigger predicates of the named deviations of the unchanged tree (notes/C16.md).  The ideal
 \* semantics above is what is checked; a disagreement whose case satisfies a trigger and whose
@@ -104,6 +111,8 @@ TrigPair(X, Y) ==
   \cup If(X.k = "circ" /\ Y.k = "circ", "circle-intersects-3d-centres")
   \cup If(PsetVsFoot(X, Y) \/ PsetVsFoot(Y, X), "pointset-footprint-membership")
   \cup If(X.k \in {"fp", "pline"} \/ (X.k = "pset" /\ Y.k = "pset"), "containsregion-crash")
+  \* X.containsRegion(Y) of a polygonal X compares footprints only: Y in another plane is "contained"
+  \cup If(PolyFam(X) /\ ((PolyFam(Y) /\ ZOf(Y) # ZOf(X)) \/ (Y.k = "pline" /\ ZOf(X) # 0)), "containsregion-ignores-height")
 TrigPrim(X) == If(WideSect(X), "sector-wide-angle-polygon")
 
 \* measure (`size`) of a composition when it is decided on the lattice: the intersection of two
@@ -124,7 +133,9 @@ PairRec(p, rw) == [t |-> "pair", p |-> p, a |-> Pairs[p].a, b |-> Pairs[p].b, cr
 CaseRec(p, o, rw) == LET RR == Comp(o, PA(p), PB(p)) IN
    [t |-> "case", p |-> p, a |-> Pairs[p].a, b |-> Pairs[p].b, op |-> o,
     bits |-> [q \in 1..NQ |-> Bit(ExpectedR(rw, o, q))],
-    ok |-> [q \in 1..NQ |-> Bit(ClearR(rw, q) /\ PlaneOKR(rw, q) /\ JudgedR(p, rw, o, q))],
+    ok |-> [q \in 1..NQ |-> Bit(ClearR(rw, q) /\ PlaneOKR(rw, q) /\ JudgedR(p, rw, o, q)
+                                /\ ~NearSharedPlane(PA(p), PB(p), PR(q, Pairs[p].dz)))],
+    coplanar |-> Coplanar(PA(p), PB(p)),
     trig |-> TrigOp(PA(p), PB(p), o),
     h |-> Height(RR), bb |-> AABB(RR), meas |-> MeasOf(RR),
     dist |-> [k \in 1..Len(DistIdx) |-> Dist(RR, PR(DistIdx[k], Pairs[p].dz))],
